@@ -200,6 +200,38 @@ func ruleC20(w *World) {
 	// shifts, the rotation amounts are — per round — five times 1 (θ) plus the 24 ρ offsets, the χ step uses `&^` only, and
 	// the ι table holds the 24 round constants of the standard
 	w.ruleKeccakStructure("C20.R6", repo)
+	// R8: no dependence on the machine word of math/big: (*big.Int).Bits / SetBits expose []big.Word, whose element is
+	// 32 bits on 386 / arm and 64 bits elsewhere — code written over it with a fixed stride gives other bytes (or panics) on
+	// the other word size. The portable accessors are Bytes / FillBytes / SetBytes.
+	w.floor("C20.R8", 1)
+	{
+		bad := 0
+		for _, pp := range []string{rootPath, hashPath, randomPath} {
+			for _, fn := range def.srcFuncs(pp) {
+				if isTestFile(def, fn.Pos()) {
+					continue
+				}
+				instrsFlat(fn, func(ins ssa.Instruction) {
+					c, ok := ins.(ssa.CallInstruction)
+					if !ok {
+						return
+					}
+					callee := c.Common().StaticCallee()
+					if callee == nil {
+						return
+					}
+					switch callee.String() {
+					case "(*math/big.Int).Bits", "(*math/big.Int).SetBits":
+						bad++
+						w.viol("C20.R8", fnKey(fn)+"/big-word:"+callee.Name(), c.Pos(), fn.Name()+" uses "+callee.String()+": the limbs are machine words (32 bits on GOARCH=386/arm, 64 elsewhere), so the bytes derived from them differ between targets")
+					}
+				})
+			}
+		}
+		if bad == 0 {
+			w.ok("C20.R8", "big-word/none", token.NoPos, "no use of (*big.Int).Bits / SetBits in the module")
+		}
+	}
 	// R7: code shared by the build-tagged variants but written over a type that differs between them (the sponge's
 	// storage: [17]uint64 for the native-byte-order variant, [136]byte for the generic one) means the same thing in
 	// both: the sponge buffer discipline (C13.R6: appends, buffer-full test, padding zero fill over bytes bufSize..rate) is
